@@ -144,4 +144,84 @@ TolGap(Y, icpt, te, sc) ==
   IF te <= 4 THEN ((YYn(Y, icpt) * (sc \div (10 * Pow10(te)))) \div n) * 10 + 10
   ELSE (YYn(Y, icpt) \div n) \div Pow10(te - 5) + 1
 
+
+-----------------------------------------------------------------------------
+(* Exact least squares with an intercept on the UN-SHIFTED integers, and the accuracy a backward-stable solver   *)
+(* reaches when the columns handed to it carry large offsets.                                                    *)
+(* With an intercept fitted the slopes, the predictions and the relations  sum r = 0,  x_j ' r = 0  do not       *)
+(* depend on per-column offsets (x_j ' r = (x_j + c) ' r when sum r = 0), so a case carries the offsets          *)
+(* separately (off) and everything below is computed from the small integers X.                                  *)
+(*   M = n * centred Gram,  v = n * X_c ' y_c  (integers);  slopes  w* = M^-1 v = adj(M) v / det(M).             *)
+(* Accuracy model (first-order perturbation of the least-squares problem under a column-wise relative backward   *)
+(* error CQ * eps -- Householder QR;  the normal equations square the condition number and are far outside):     *)
+(*   |dw_j| <= sum_l |(M/n)^-1_jl| * ( ||x_c,l|| * E1 + E2_l ),                                                  *)
+(*   E1 = eps * sqrt(n) * ( 2 * sum_k (|off_k| + max|x_k|) |w_k| + max|y| + max|yhat| ),                         *)
+(*   E2_l = 2 * eps * sqrt(n) * (|off_l| + max|x_l|) * ||r||.                                                    *)
+MinorRC(M, rr, cc) ==
+  [i \in 1..(Len(M) - 1) |-> [q \in 1..(Len(M) - 1) |-> M[IF i < rr THEN i ELSE i + 1][IF q < cc THEN q ELSE q + 1]]]
+AdjE(M, a, bq) == IF Len(M) = 1 THEN 1 ELSE (IF (a + bq) % 2 = 0 THEN 1 ELSE -1) * Det(MinorRC(M, bq, a))
+ColSum(X, j) == SumSeq([i \in 1..Len(X) |-> X[i][j]])
+CGram(X) ==
+  LET n == Len(X)  pp == Len(X[1]) IN
+  [a \in 1..pp |-> [bq \in 1..pp |-> n * SumSeq([i \in 1..n |-> X[i][a] * X[i][bq]]) - ColSum(X, a) * ColSum(X, bq)]]
+CVec(X, Y, tt) ==
+  LET n == Len(X) IN
+  [a \in 1..Len(X[1]) |-> n * SumSeq([i \in 1..n |-> X[i][a] * Y[i][tt]]) - ColSum(X, a) * SumSeq([i \in 1..n |-> Y[i][tt]])]
+\* floor(|num| * 10^5 / |den|) with sign, digit by digit (|den| < 2*10^8, |num / den| < 2*10^4)
+RECURSIVE FracDigits(_, _, _)
+FracDigits(rem, den, k) == IF k = 0 THEN 0 ELSE ((rem * 10) \div den) * Pow10(k - 1) + FracDigits((rem * 10) % den, den, k - 1)
+RatS5(num, den) ==
+  LET a == Abs(num)  d == Abs(den) IN Sgn(num) * Sgn(den) * ((a \div d) * 100000 + FracDigits(a % d, d, 5))
+\* exact slopes * 10^5 (floor), single target tt
+WStar(X, Y, tt) ==
+  LET M == CGram(X)  v == CVec(X, Y, tt)  dt == Det(M) IN
+  [a \in 1..Len(M) |-> RatS5(SumSeq([l \in 1..Len(M) |-> AdjE(M, a, l) * v[l]]), dt)]
+MaxAbsCol(X, j) == MaxSeq([i \in 1..Len(X) |-> Abs(X[i][j])])
+\* ceil( (|off| + max|x|) * 10^5 * eps ),  eps = 2^-24 (f32) / 2^-53 (f64)
+UOff(a, f32) == IF f32 THEN MulDiv(a, 3125, 524288) + 1 ELSE ((((a \div 131072) + 1) * 3125) \div 1073741824) \div 2 + 1
+UO(X, off, k, f32) == UOff(Abs(off[k]) + MaxAbsCol(X, k), f32)
+WPlain(W, k, tt) == Abs(W[k][tt]) \div 100000 + 1
+SqN(n) == Isqrt(n) + 1
+\* evaluation noise of one prediction x'w + b computed in floating point at the shifted magnitudes (units of 10^-5)
+PredNoise(X, off, W, tt, f32) == 4 * (SumSeq([k \in 1..Len(W) |-> UO(X, off, k, f32) * WPlain(W, k, tt)]) + 1)
+RNormPlain(R, tt) == Isqrt(SumSeq([i \in 1..Len(R) |-> (Abs(R[i][tt]) \div 1000 + 1) * (Abs(R[i][tt]) \div 1000 + 1)])) \div 100 + 1
+CQ == 8
+SolveE1(X, Y, off, W, Yh, tt, f32) ==
+  SqN(Len(X)) * (2 * SumSeq([k \in 1..Len(W) |-> UO(X, off, k, f32) * WPlain(W, k, tt)])
+                 + UOff(1, f32) * (MaxSeq([i \in 1..Len(Y) |-> Abs(Y[i][tt])]) + MaxSeq([i \in 1..Len(Yh) |-> Abs(Yh[i][tt])]) \div 100000 + 2))
+SolveE2(X, off, R, l, tt, f32) == 2 * SqN(Len(X)) * UO(X, off, l, f32) * RNormPlain(R, tt)
+SolveTerm(X, Y, off, W, Yh, R, l, tt, f32) ==
+  (Isqrt(CGram(X)[l][l] \div Len(X)) + 1) * SolveE1(X, Y, off, W, Yh, tt, f32) + SolveE2(X, off, R, l, tt, f32)
+\* |(M/n)^-1_al| in units of 10^-3 (rounded up)
+GinvQ(X, a, l) == LET M == CGram(X) IN (Abs(AdjE(M, a, l)) * Len(X) * 1000) \div Abs(Det(M)) + 1
+\* the integer arithmetic of the accuracy model stays inside 31 bits
+SolveInRange(X, Y, off, W, Yh, R, tt, f32) ==
+  LET M == CGram(X) IN
+  /\ Abs(Det(M)) > 0 /\ Abs(Det(M)) < 200000000
+  /\ \A a \in 1..Len(M) : \A l \in 1..Len(M) : Abs(AdjE(M, a, l)) <= 400000
+  /\ \A a \in 1..Len(M) : \A l \in 1..Len(M) : GinvQ(X, a, l) <= 20000000
+  /\ \A l \in 1..Len(M) : SolveTerm(X, Y, off, W, Yh, R, l, tt, f32) <= 2000000
+  /\ \A a \in 1..Len(M) : Abs(SumSeq([l \in 1..Len(M) |-> AdjE(M, a, l) * CVec(X, Y, tt)[l]])) \div Abs(Det(M)) <= 100
+\* allowed deviation of a logged slope from the exact one (units of 10^-5): quantisation + floor + model
+CoefSlack(X, Y, off, W, Yh, R, a, tt, f32) ==
+  2 + CQ * SumSeq([l \in 1..Len(W) |-> MulDiv(GinvQ(X, a, l), SolveTerm(X, Y, off, W, Yh, R, l, tt, f32), 1000) + 1])
+\* the float type can resolve the slopes of this case: the accuracy model allows less than 0.05 (otherwise the case is
+\* too ill conditioned for the float type -- e.g. nearly collinear columns with an offset of 2^16 in f32 -- and nothing
+\* beyond a finite result is demanded).  First conjunct: the products below stay inside 31 bits.
+Resolvable(X, Y, off, W, Yh, R, tt, f32) ==
+  /\ \A a \in 1..Len(W) : \A l \in 1..Len(W) :
+        (GinvQ(X, a, l) \div 1000 + 1) * (SolveTerm(X, Y, off, W, Yh, R, l, tt, f32) \div 1000 + 1) <= 100
+  /\ \A a \in 1..Len(W) : CoefSlack(X, Y, off, W, Yh, R, a, tt, f32) <= 5000
+CoefOk(X, Y, off, W, Yh, R, tt, f32) ==
+  LET ws == WStar(X, Y, tt) IN
+  \A a \in 1..Len(W) : Abs(W[a][tt] - ws[a]) <= CoefSlack(X, Y, off, W, Yh, R, a, tt, f32)
+\* allowances of the shift-invariant orthogonality relations for a case with offsets (units of 10^-5):
+\* evaluation noise of the predictions + what the accuracy model allows for the slopes / the constant column
+OffAl0(X, off, W, tt, f32) ==
+  Len(X) * PredNoise(X, off, W, tt, f32)
+    + CQ * Len(X) * SumSeq([k \in 1..Len(W) |-> UO(X, off, k, f32) * WPlain(W, k, tt)])
+OffAlK(X, Y, off, W, Yh, R, j, tt, f32) ==
+  SumSeq([i \in 1..Len(X) |-> Abs(X[i][j])]) * PredNoise(X, off, W, tt, f32)
+    + SumSeq([l \in 1..Len(W) |-> (Abs(CGram(X)[j][l]) \div Len(X) + 1) * CoefSlack(X, Y, off, W, Yh, R, l, tt, f32)])
+    + Abs(ColSum(X, j)) * (OffAl0(X, off, W, tt, f32) \div Len(X) + 1)
 =============================================================================
